@@ -432,12 +432,14 @@ T("performance_numpy.replace_implicit_dot",
   _NP + "a = []\nprint(sum(x * y for x, y in zip(a, a)), np.dot(a, a))\n",
   # zip stops at the shorter operand, dot requires equal lengths
   _NP + "a = [1, 2, 3]\nb = [4, 5]\nprint(sum(x * y for x, y in zip(a, b)), np.dot(b, b))\n")
+# (since c0aaff0 the rule only fires in programs that mention np.<something>: `check = np.matmul(..)` keeps the triggers
+#  in its domain)
 T("performance_numpy.replace_implicit_matmul",
-  _NP + "left = [[1, 2], [3, 4]]\nright = [[5, 6], [7, 8]]\nresult = [[0, 0], [0, 0]]\nfor i in range(len(left)):\n    for j in range(len(right[0])):\n        for k in range(len(right)):\n            result[i][j] += left[i][k] * right[k][j]\nprint(result)\n",
+  _NP + "left = [[1, 2], [3, 4]]\nright = [[5, 6], [7, 8]]\ncheck = np.matmul(left, right)\nresult = [[0, 0], [0, 0]]\nfor i in range(len(left)):\n    for j in range(len(right[0])):\n        for k in range(len(right)):\n            result[i][j] += left[i][k] * right[k][j]\nprint(result)\n",
   # += accumulates onto the previous content of result
-  _NP + "left = [[1, 2], [3, 4]]\nright = [[5, 6], [7, 8]]\nresult = [[100, 0], [0, 100]]\nfor i in range(len(left)):\n    for j in range(len(right[0])):\n        for k in range(len(right)):\n            result[i][j] += left[i][k] * right[k][j]\nprint(result)\n",
+  _NP + "left = [[1, 2], [3, 4]]\nright = [[5, 6], [7, 8]]\ncheck = np.matmul(left, right)\nresult = [[100, 0], [0, 100]]\nfor i in range(len(left)):\n    for j in range(len(right[0])):\n        for k in range(len(right)):\n            result[i][j] += left[i][k] * right[k][j]\nprint(result)\n",
   # the loop updates the object in place: another name for it sees the update
-  _NP + "left = [[1, 2], [3, 4]]\nright = [[5, 6], [7, 8]]\nresult = [[0, 0], [0, 0]]\nalias = result\nfor i in range(len(left)):\n    for j in range(len(right[0])):\n        for k in range(len(right)):\n            result[i][j] += left[i][k] * right[k][j]\nprint(alias)\n",
+  _NP + "left = [[1, 2], [3, 4]]\nright = [[5, 6], [7, 8]]\ncheck = np.matmul(left, right)\nresult = [[0, 0], [0, 0]]\nalias = result\nfor i in range(len(left)):\n    for j in range(len(right[0])):\n        for k in range(len(right)):\n            result[i][j] += left[i][k] * right[k][j]\nprint(alias)\n",
   _NP + "left = [[1, 2], [3, 4]]\nright = [[5, 6], [7, 8]]\nresult = [[sum(left[i][k] * right[k][j] for k in range(len(right))) for j in range(len(right[0]))] for i in range(len(left))]\nprint(result)\n")
 _M = ("class M:\n    def __init__(self, rows):\n        self.rows = [list(r) for r in rows]\n    @property\n    def T(self):\n        return M(zip(*self.rows))\n"
       "    def __repr__(self):\n        return 'M(%r)' % (self.rows,)\n"
